@@ -129,6 +129,11 @@ class Interp:
         if isinstance(e, ast.Call):
             f = norm(e.func)
             a = e.args
+            if isinstance(e.func, ast.Attribute) and e.func.attr in ('cumsum', 'argsort', 'copy') and not a and \
+                    not norm(e.func.value) in ('np', 'numpy'):
+                # the method form of the array function: x.cumsum() is np.cumsum(x)
+                f = 'np.' + e.func.attr
+                a = [e.func.value]
             if f in ('np.linalg.norm', 'numpy.linalg.norm') and len(a) == 1 and not e.keywords:
                 v = self.ev(a[0])
                 if isinstance(v, Vec) and v.pw == 1 and not v.acc:
